@@ -210,8 +210,8 @@ func normaliserConsts(fn *ssa.Function) []string {
 	visit = func(f *ssa.Function) {
 		for _, b := range f.Blocks {
 			for _, in := range b.Instrs {
-				if _, isPhi := in.(*ssa.Phi); isPhi {
-					// a constant flowing into a phi is counted once at the phi
+				if isLogCall(in) {
+					continue // message texts are not part of what is equated
 				}
 				for _, op := range in.Operands(nil) {
 					if op == nil || *op == nil {
@@ -276,6 +276,9 @@ func ruleNormaliserConsts(p *Prog, r *Report, rule, prop string) {
 		seen := map[string]bool{}
 		sites := 0
 		for _, gs := range guardSitesOf(p, fn) {
+			if isLogCall(gs.In) {
+				continue
+			}
 			sites++
 			k := fnDisplay(fn) + "|" + gs.Name
 			if seen[k] {
@@ -287,4 +290,21 @@ func ruleNormaliserConsts(p *Prog, r *Report, rule, prop string) {
 		}
 		r.floor(rule, "operations of "+row[0], sites, 10)
 	}
+}
+
+// isLogCall: errlog.Info / errlog.Warning / errlog.DoLog (messages; they neither end the run nor change data).
+func isLogCall(in ssa.Instruction) bool {
+	c, ok := in.(ssa.CallInstruction)
+	if !ok {
+		return false
+	}
+	f := c.Common().StaticCallee()
+	if f == nil {
+		return false
+	}
+	switch shortName(f) {
+	case "errlog.Info", "errlog.Warning", "errlog.DoLog":
+		return true
+	}
+	return false
 }
